@@ -45,6 +45,32 @@ def ObsEq (g g' : Grid) : Prop :=
 /-- the least distance between the residue classes of `a` and `b` modulo `w` is `m` -/
 def IsTorusDist (w a b m : Int) : Prop := (∃ k : Int, m = Grid.iabs (a - b + k * w)) ∧ ∀ k : Int, m ≤ Grid.iabs (a - b + k * w)
 
+/-! ### NetworkGrid as a space (C08-style agreement of `pos` and the node lists) -/
+
+/-- `agent.pos` is the one node whose list holds the agent (`None` exactly when no list does); only nodes of
+    the graph hold agents; no list holds an agent twice -/
+structure NetInv (t : Net) : Prop where
+  pos_content : ∀ a v, t.pos a = some v ↔ a ∈ t.content v
+  in_net : ∀ v, t.content v ≠ [] → v < t.n
+  nodup : ∀ v, (t.content v).Nodup
+
+/-- precondition on calls (as for the grids): `place_agent` of an unplaced agent — on any node id, also one
+    that does not exist; `move_agent` / `remove_agent` unrestricted -/
+def NOpOk (t : Net) : NOp → Prop
+  | .place a _ => t.pos a = none
+  | _ => True
+
+def NHistOk (t : Net) : List NOp → Prop
+  | [] => True
+  | op :: ops => NOpOk t op ∧ NHistOk (nstep t op).1 ops
+
+/-- the calls of a history that did not raise, in order -/
+def naccepted (t : Net) : List NOp → List NOp
+  | [] => []
+  | op :: ops => match (nstep t op).2 with
+    | .ok => op :: naccepted (nstep t op).1 ops
+    | .err _ => naccepted (nstep t op).1 ops
+
 /-! ### neighbourhoods (C09) -/
 
 def Dim.inGrid (d : Dim) (c : Coord) : Prop := 0 ≤ c.1 ∧ c.1 < d.w ∧ 0 ≤ c.2 ∧ c.2 < d.h
